@@ -94,7 +94,16 @@ impl SlotBlockData {
             debug!("received shred from misbehaving leader, not adding to blockstore");
             return Err(AddShredError::InvalidShred);
         }
-        self.disseminated.add_shred(shred, shredder)
+        let result = self.disseminated.add_shred(shred, shredder);
+        // a block is announced once: not again when repair has completed (and announced) it already
+        match result {
+            Ok(Some(BlockstoreEvent::Block { block_info, .. }))
+                if self.repaired_is_complete(&block_info.hash) =>
+            {
+                Ok(None)
+            }
+            other => other,
+        }
     }
 
     /// Adds a shred received via repair to the spot given by block hash.
@@ -126,7 +135,23 @@ impl SlotBlockData {
             self.repaired.remove(&hash);
             return Err(AddShredError::Equivocation);
         }
-        result
+        // the first shred of a slot is announced for dissemination only, and a block is announced
+        // once: not again when dissemination has completed (and announced) it already
+        match result {
+            Ok(Some(BlockstoreEvent::FirstShred(_))) => Ok(None),
+            Ok(Some(BlockstoreEvent::Block { .. })) if self.disseminated_is(&hash) => Ok(None),
+            other => other,
+        }
+    }
+
+    /// Returns `true` iff the block received via dissemination is complete and has the given hash.
+    fn disseminated_is(&self, hash: &BlockHash) -> bool {
+        matches!(&self.disseminated.completed, Some((h, _)) if h == hash)
+    }
+
+    /// Returns `true` iff a block with the given hash has been completed via repair.
+    fn repaired_is_complete(&self, hash: &BlockHash) -> bool {
+        matches!(self.repaired.get(hash), Some(data) if data.completed.is_some())
     }
 
     /// Ingests a slice that the local node produced itself (as the leader).
